@@ -52,19 +52,17 @@ theorem encChunks_rel (hde : DecEnc cfg lv) (K1 K2 : Bytes) (c : Nat) (chs : Lis
     · rename_i l hl
       split at h
       · cases h
-      · rename_i r hr
-        obtain ⟨iv, t1⟩ := r
+      · rename_i r hr0
+        obtain ⟨d, t1⟩ := r
+        obtain ⟨iv, hr, hd⟩ := skeEncrypt_ok hr0
         simp only at h
         split at h
         · cases h
-        · rename_i d hd
-          split at h
-          · cases h
-          · rename_i r2 hr2
-            obtain ⟨ps', t2⟩ := r2
-            simp only [pure, Except.pure] at h
-            cases h
-            exact .cons c ch rest l d ps' hl (hde _ _ _ _ (takeBytes_len hr) hd) (ih _ _ _ hr2)
+        · rename_i r2 hr2
+          obtain ⟨ps', t2⟩ := r2
+          simp only [pure, Except.pure] at h
+          cases h
+          exact .cons c ch rest l d ps' hl (hde _ _ _ _ (takeBytes_len hr) hd) (ih _ _ _ hr2)
 
 /-- the part of the pair list that belongs to one keyword -/
 theorem encDb_split (hde : DecEnc cfg lv) (K : Bytes) (db : DB) (t t' : Tape) (L : List (Bytes × Bytes))
@@ -193,5 +191,84 @@ theorem setup_eq (K : Bytes) (db : DB) (t t' : Tape) (D : Table) (h : setup cfg 
     simp only [pure, Except.pure] at h
     cases h
     exact ⟨L, hr, rfl⟩
+
+end SSEPy.Sch.Chain
+
+namespace SSEPy.Sch.Chain
+open SSEPy.Sch
+variable (cfg : ChainCfg) (lv : Leaves)
+
+/-- the labels `F(K1, c), F(K1, c+1), …` of `n` consecutive probes -/
+def probeLabels (K1 : Bytes) (c : Nat) : Nat → List Bytes
+  | 0 => []
+  | n + 1 => (match cfg.prfF.call lv.hmac K1 (natToBytesMin c) with | .ok l => l | .error _ => []) ::
+             probeLabels K1 (c + 1) n
+
+theorem encChunks_labels (K1 K2 : Bytes) (c : Nat) (chs : List Bytes) (t t' : Tape) (ps : List (Bytes × Bytes))
+    (h : encChunks cfg lv K1 K2 c chs t = .ok (ps, t')) : ps.map (·.1) = probeLabels cfg lv K1 c chs.length := by
+  induction chs generalizing c t ps with
+  | nil => simp [encChunks] at h; cases h.1; rfl
+  | cons ch rest ih =>
+    simp only [encChunks, bind, Except.bind] at h
+    split at h
+    · cases h
+    · rename_i l hl
+      split at h
+      · cases h
+      · rename_i r hr0
+        obtain ⟨d, t1⟩ := r
+        obtain ⟨iv, hr, hd⟩ := skeEncrypt_ok hr0
+        simp only at h
+        split at h
+        · cases h
+        · rename_i r2 hr2
+          obtain ⟨ps', t2⟩ := r2
+          simp only [pure, Except.pure] at h
+          cases h
+          simp [probeLabels, hl, ih _ _ _ hr2]
+
+/-- the labels of one keyword: a function of the key, the keyword and the number of chunks only -/
+def kwLabels (K : Bytes) (p : Bytes × List Bytes) : List Bytes :=
+  match token cfg lv K p.1, cfg.pack p.2 with
+  | .ok (K1, _), .ok chs => probeLabels cfg lv K1 0 chs.length
+  | _, _ => []
+
+theorem encDb_labels (K : Bytes) (db : DB) (t t' : Tape) (L : List (Bytes × Bytes))
+    (h : encDb cfg lv K db t = .ok (L, t')) : L.map (·.1) = db.flatMap (kwLabels cfg lv K) := by
+  induction db generalizing t L with
+  | nil => simp [encDb] at h; cases h.1; rfl
+  | cons p rest ih =>
+    obtain ⟨w0, ids0⟩ := p
+    simp only [encDb, bind, Except.bind] at h
+    split at h
+    · cases h
+    · rename_i tk htk
+      obtain ⟨K1, K2⟩ := tk
+      simp only at h
+      split at h
+      · cases h
+      · rename_i chs hchs
+        split at h
+        · cases h
+        · rename_i r hr
+          obtain ⟨ps, t1⟩ := r
+          simp only at h
+          split at h
+          · cases h
+          · rename_i r2 hr2
+            obtain ⟨qs, t2⟩ := r2
+            simp only [pure, Except.pure] at h
+            cases h
+            simp only [List.map_append, List.flatMap_cons, ih _ _ hr2]
+            congr 1
+            rw [encChunks_labels cfg lv K1 K2 0 chs _ _ _ hr]
+            simp [kwLabels, htk, hchs]
+
+/-- supplying the keywords in another order (and drawing other randomness) permutes the labels -/
+theorem labels_perm (K : Bytes) (db db' : DB) (hp : db.Perm db') (t t1 u u1 : Tape) (L L' : List (Bytes × Bytes))
+    (h : encDb cfg lv K db t = .ok (L, t1)) (h' : encDb cfg lv K db' u = .ok (L', u1)) :
+    (L.map (·.1)).Perm (L'.map (·.1)) := by
+  rw [encDb_labels cfg lv K db t t1 L h, encDb_labels cfg lv K db' u u1 L' h']
+  exact hp.flatMap_right _
 
 end SSEPy.Sch.Chain
